@@ -237,13 +237,13 @@ def shared_freelist(ctx, rule='C06.shared-freelist'):
             if t['k'] in ('call', 'tailcall'):
                 evs += E.classify(f, bb, t, callee_of(t), None)
             for e in evs:
-                if e['ev'] == 'P' or (e['ev'] == 'R' and e.get('shared') and False):
+                if e['ev'] == 'P' or (e['ev'] == 'R' and e.get('shared_ptr')):
                     n += 1
                     owner = f.owner if f.kind == 'Closure' else f
                     import c03
                     if owner is dbopen or owner in commit_fns or c03._only_via(F, owner, dbopen):
                         continue
-                    res.append(bad(rule, '%s | publishes into the shared free list (%s)' % (f.qual, e.get('how')),
+                    res.append(bad(rule, '%s | publishes into the shared free list (%s)' % (f.qual, e.get('how') or 'release'),
                                    '%s modifies the shared free list at %s (%s); only the commit (behind the header write) and DBInner::open may: an abandoned or read-only '
                                    'transaction would leave a trace in the next writer\'s allocations' % (f.qual, f.loc(bb), e.get('how')), where=f.loc(bb)))
     f = floor(rule, 'publications into the shared free list', n, 2)
@@ -254,9 +254,25 @@ def shared_freelist(ctx, rule='C06.shared-freelist'):
     return res
 
 
-def _err_readonly_blocks(fn):
-    """blocks that store Err(Error::ReadOnlyTx) into _0"""
+def _err_readonly_blocks(fn, ctx=None):
+    """blocks that store Err(Error::ReadOnlyTx) into _0 (directly, or by propagating with `?` the error of a guard helper that builds it)"""
     out = set()
+    if ctx is not None:
+        from guards import _guard_helper
+        F = ctx.facts
+        du = None
+        for bb in fn.reachable_blocks():
+            t = fn.term(bb)
+            c = callee_of(t) if t['k'] == 'call' else None
+            if not c or c['path'] != 'std::ops::FromResidual::from_residual' or t['dest']['l'] != 0 or not t['args']:
+                continue
+            du = du or ctx.du(fn)
+            _, atoms = du.slice_operand(t['args'][0])
+            for a in atoms:
+                if a[0] == 'call' and a[2] in F.by_path:
+                    h = F.by_path[a[2]]
+                    if _guard_helper(F, h) is not None and 'ReadOnlyTx' in set(_error_origins(h).values()):
+                        out.add(bb)
     ro_locals = set()
     for bb in fn.reachable_blocks():
         for s in fn.blocks[bb]['stmts']:
@@ -267,6 +283,14 @@ def _err_readonly_blocks(fn):
             if s['k'] == 'assign' and s['p']['l'] == 0 and s['rv']['k'] == 'agg' and s['rv'].get('variant') == 'Err' and s['rv']['ops'] and op_local(s['rv']['ops'][0]) in ro_locals:
                 out.add(bb)
     return out
+
+
+def _error_origins_reachable(F, fn):
+    """can fn (transitively) build a value of the crate's error enum?"""
+    for g in F.reachable_fns([fn]):
+        if _error_origins(g):
+            return True
+    return False
 
 
 def guard(ctx, rule='C06.guard'):
@@ -330,7 +354,7 @@ def guard(ctx, rule='C06.guard'):
                                'in %s the call to %s at %s (which reaches the mutating primitive %s) is not dominated by the writable edge of a test of the transaction\'s writable bit'
                                % (m.qual, target.qual, m.loc(bb), prim.qual), where=m.loc(bb)))
         # the read-only edge returns Err(ReadOnlyTx) without passing a primitive-reaching call
-        erb = _err_readonly_blocks(m)
+        erb = _err_readonly_blocks(m, ctx)
         lead_blocks = {bb for bb, _, _ in leading if bb is not None}
         for (tb, tt, ft) in tests:
             reach = m.reach_from([ft], avoid=lead_blocks)
@@ -339,6 +363,27 @@ def guard(ctx, rule='C06.guard'):
                 okm = False
                 res.append(bad(rule, '%s | read-only edge does not return ReadOnlyTx' % m.qual,
                                'the read-only edge of the writable test at %s in %s does not reach `Err(Error::ReadOnlyTx)`' % (m.loc(tb), m.qual), where=m.loc(tb)))
+        # nothing that can fail runs before the check: a read-only transaction must get ReadOnlyTx, not whatever an earlier lookup reports
+        first_tests = {tb for (tb, tt, ft) in tests}
+        for bb in sorted(m.reachable_blocks()):
+            t = m.term(bb)
+            if t['k'] != 'call':
+                continue
+            c = callee_of(t)
+            tgt = None
+            if c:
+                r = c.get('resolved')
+                tgt = F.by_path.get(r['path']) if r and r['local'] else (F.by_path.get(c['path']) if c['local'] else None)
+            if tgt is None or not tgt.locals[0]['ty'].startswith('std::result::Result<'):
+                continue
+            from guards import _guard_helper
+            if _guard_helper(F, tgt) is not None:
+                continue
+            if not any(m.dominates(tb, bb) for tb in first_tests) and _error_origins_reachable(F, tgt):
+                okm = False
+                res.append(bad(rule, '%s | fallible call before the writable check' % m.qual,
+                               '%s calls %s at %s before it has tested the transaction\'s writable bit: on a read-only transaction the call can fail with its own error '
+                               '(a missing bucket, a wrong kind) instead of ReadOnlyTx' % (m.qual, tgt.qual, m.loc(bb)), where=m.loc(bb)))
         if okm:
             res.append(ok(rule, '%s: every path to a mutating primitive is behind the writable check; read-only edge returns ReadOnlyTx' % m.qual, sites=len(leading)))
     ctx.stats['guarded_methods'] = guarded
